@@ -59,6 +59,15 @@ def main():
             shutil.rmtree(work, ignore_errors=True)
     for r in rows:
         print('%-28s %-5s %-10s %s' % r)
+    # merge into seeded/RESULTS.json (documentation of which check catches which change)
+    rp = os.path.join(VERIF, 'seeded', 'RESULTS.json')
+    try:
+        res = json.load(open(rp))
+    except Exception:
+        res = {}
+    for sid, pid, verdict, detail in rows:
+        res.setdefault(sid, {})[pid + ':' + tier] = {'verdict': verdict, 'detail': detail}
+    json.dump(res, open(rp, 'w'), indent=1, sort_keys=True)
     return 0
 
 
